@@ -1550,6 +1550,13 @@ impl TypeChecker {
         // Skip the first parameter if we are checking a method
         let params =
             if let ResolvedPath::Method { value, .. } = &resolved_path {
+                // A function without parameters (like `List.new`) cannot
+                // be called as a method: there is no parameter for the
+                // receiver.
+                if signature.parameter_types.is_empty() {
+                    let ty = value.final_type().clone();
+                    return Err(self.error_no_method_on_type(&ty, last_ident));
+                }
                 self.unify(
                     value.final_type(),
                     &signature.parameter_types[0],
@@ -1587,6 +1594,12 @@ impl TypeChecker {
         let Some(function) = self.get_method(&ty, field) else {
             return Err(self.error_no_method_on_type(&ty, field));
         };
+
+        // A function without parameters (like `List.new`) cannot be called
+        // as a method: there is no parameter for the receiver.
+        if function.signature.parameter_types.is_empty() {
+            return Err(self.error_no_method_on_type(&ty, field));
+        }
 
         // This might seem silly but we are unifying the receiver type with the
         // _instantiated_ type of the method.
